@@ -76,6 +76,9 @@ pub fn run(a: &Args) {
             if skip_unref { w.skip_stacks_if_mapping_unreferenced(); }
             if dso_fails { w.set_direct_auxv_dump_info(DirectAuxvDumpInfo { program_header_count: 3, program_header_address: 0x10, linux_gate_address: 0, entry_address: 0 }); }
         };
+        // warm-up dump: the first stop interrupts every blocking syscall of the target; from the second stop on
+        // the threads are found in the same (restarted-syscall) state, so that dumps are comparable
+        { let mut ww = MinidumpWriter::new(target.pid, target.pid); let mut d = std::io::Cursor::new(Vec::new()); let _ = quiet_catch(std::panic::AssertUnwindSafe(|| ww.dump(&mut d).map(|_| ()).map_err(|_| ()))); target.settle(); }
         // baseline: no injected faults
         let mut w0 = MinidumpWriter::new(target.pid, target.pid); configure(&mut w0);
         let mut dest = std::io::Cursor::new(Vec::new());
@@ -83,6 +86,7 @@ pub fn run(a: &Args) {
         let base_img = match base { Ok(Ok(i)) => i, other => { let mut l = Line::new("const"); l.u(0); out.case(l.s(), &format!("!baseline dump failed: {other:?}").replace('\n', " "), true); continue; } };
         let subsets: Vec<u32> = if shape == 0 || a.tier == "thorough" { (0..32).collect() } else { let mut v = vec![0u32, 31]; for _ in 0..6 { v.push(rng.below(32) as u32); } v };
         for mask in subsets {
+            target.settle();
             let mut client = FailSpotName::testing_client();
             for (i, s) in spots.iter().enumerate() { client.set_enabled(*s, mask >> i & 1 == 1); }
             let mut w = MinidumpWriter::new(target.pid, target.pid); configure(&mut w);
